@@ -80,16 +80,26 @@ def impl(inp):
             pass
 
     rec = Recorder(mgr)
+
+    def debug_trainer(**kw):
+        # DebugTrainer creates <output_dir>/abmarl_results/DEBUG_<minute>; parallel workers race on
+        # "if not exists: makedirs" -- retry, the directory then exists
+        for attempt in range(5):
+            try:
+                return DebugTrainer(output_dir=_DEBUG_DIR, **kw)
+            except FileExistsError:
+                continue
+        return DebugTrainer(output_dir=_DEBUG_DIR, **kw)
     try:
         if tkind == 0:
             tr = Multi(sim=mgr, policies=policies, policy_mapping_fn=lambda a: f"p{pmap[aidx(a)]}")
         elif tkind == 1:
             tr = OnPolicyMonteCarloTrainer(sim=mgr, policy=policies["p0"])
         elif tkind == 2:
-            tr = DebugTrainer(sim=mgr, policies=policies, output_dir=_DEBUG_DIR,
-                              policy_mapping_fn=lambda a: f"p{pmap[aidx(a)]}")
+            tr = debug_trainer(sim=mgr, policies=policies,
+                               policy_mapping_fn=lambda a: f"p{pmap[aidx(a)]}")
         else:
-            tr = DebugTrainer(sim=mgr, output_dir=_DEBUG_DIR)
+            tr = debug_trainer(sim=mgr)
             # the default policies are random ones, one per learning agent, named by the agent
             # id; put recording policies with the same names and spaces in their place
             assert sorted(tr.policies) == sorted(aid(i) for i in range(n) if script[2][i])
